@@ -32,6 +32,9 @@ ASSUMPTIONS = [
     "outside the quantifier of the property: its failures are recorded as anomalies, not witnesses",
     "a run that writes no file (empty suite or failed export) has nothing to execute: recorded as an anomaly",
     "driver timeouts / crashes of the harness are inconclusive, never a violation",
+    "a run in which Pynguin logged test-execution timeouts *during assertion generation* (machine load) may keep unverified, state-dependent assertions "
+    "(AssertionGenerator's filter removes nothing for a timed-out filtering execution): AssertionError failures of such runs are "
+    "anomalies (after-execution-timeouts:*), every other failure mechanism stays a witness",
 ]
 
 NONDETERMINISTIC_SUTS = {"rng_user"}
@@ -187,6 +190,10 @@ def check_file(ctx, r):
         ctx.inconclusive_because(f"{r['tag']}: pytest produced no junit XML (rc {pt['rc']}): {pt['stdout'][-300:]}")
         return
     nondet = c["sut"] in NONDETERMINISTIC_SUTS
+    log_counts = next((e["counts"] for e in r["res"].get("events", []) if e.get("ev") == "log-counts"), {})
+    had_timeouts = log_counts.get("timeouts_during_assertion_generation", 0) > 0
+    if had_timeouts:
+        ctx.cls("run:execution-timeouts-during-assertion-generation")
     classes = _file_classes(fi, r["f1"], c)
     ctx.ok(0, distinct=core.stable_hash(r["f1"]))
     for name in classes:
@@ -199,6 +206,10 @@ def check_file(ctx, r):
     def report(key, desc, extra):
         if nondet:
             ctx.anomaly(f"random-using-sut:{key}")
+        elif had_timeouts and key.startswith("fails:AssertionError"):
+            # a timed-out filtering execution keeps every unverified assertion (the filter fails open); timeouts come from
+            # machine load, so the value mismatch is not attributed to the deterministic pipeline
+            ctx.anomaly(f"after-execution-timeouts:{key}")
         else:
             ctx.witness(key, f"{r['tag']} no_xfail={c['no_xfail']} black={c['black']}: {desc}", {**case_info, **extra})
 
